@@ -1486,7 +1486,12 @@ func (cp *capacityPlugin) updateAncestors(queue *api.QueueInfo, ssn *framework.S
 	}
 
 	cp.queueOpts[parentInfo.UID].children[queue.UID] = cp.queueOpts[queue.UID]
-	cp.queueOpts[queue.UID].ancestors = append(cp.queueOpts[parentInfo.UID].ancestors, parentInfo.UID)
+	// A fresh slice per queue: appending to the parent's slice would let siblings share a backing
+	// array, in which the children of one sibling overwrite the parent recorded for the children
+	// of another.
+	parentAncestors := cp.queueOpts[parentInfo.UID].ancestors
+	ancestors := make([]api.QueueID, 0, len(parentAncestors)+1)
+	cp.queueOpts[queue.UID].ancestors = append(append(ancestors, parentAncestors...), parentInfo.UID)
 	return nil
 }
 
